@@ -382,6 +382,102 @@ def canon_list_py(objs, n, scoped_root):
     return out, n
 
 
+# ------------------------------------------------------------------ the sender's heap (input of the model's sender machine)
+def heap_py(objs):
+    """-> (nodes, queue): nodes = {small id: (kind, name, [svals])}, queue = [sval] for the top-level objects.
+    svals: the atom terms of canon_py, or ("obj", id).  One node per Python object for the reference-tracked types
+    (identity = id(obj)); frozensets, pass-by-copy instances and call scopes get a fresh node at every encounter (the
+    real slicers slice them again each time; getStateToCopy() is called again each time).  Children are in the order
+    the real slicers emit them (the order canon_py uses)."""
+    nodes = {}
+    ids = {}
+    counter = [100]
+
+    def val(obj, depth):
+        if depth > 400:
+            raise Unsupported("no finite heap (cycle through pass-by-copy objects only)")
+        t = type(obj)
+        if t is bool:
+            return ("bool", obj)
+        if t is int:
+            return ("int", obj)
+        if t is float:
+            return ("float", struct.pack("!d", obj))
+        if t is bytes:
+            return ("bytes", obj)
+        if t is str:
+            return ("text", obj.encode("utf-8"))
+        if obj is None:
+            return ("none",)
+        if t is decimal.Decimal:
+            return ("dec", str(obj).encode("ascii"))
+        if t in TRACKED and id(obj) in ids:
+            return ("obj", ids[id(obj)])
+        counter[0] += 7
+        me = counter[0]
+        if t in TRACKED:
+            ids[id(obj)] = me
+            KEEP.append(obj)
+        if t is list or t is tuple:
+            kind, name, kids = ("list" if t is list else "tuple"), b"", list(obj)
+        elif t is set or t is frozenset:
+            kind, name, kids = ("set" if t is set else "frozen"), b"", list(obj)
+        elif t is dict:
+            keys = list(obj.keys())
+            try:
+                keys.sort()
+            except Exception:
+                pass
+            kind, name, kids = "dict", b"", [x for k in keys for x in (k, obj[k])]
+        elif as_copyable(obj) is not None:
+            tname, state = copy_state(obj)
+            kind, name = "copy", tname.encode("ascii")
+            kids = [x for k, v in state for x in (k.encode("utf-8"), v)]
+        elif t is Scope:
+            kind, name, kids = "scope", obj.name, list(obj.children)
+        else:
+            raise Unsupported("type %r" % t)
+        nodes[me] = None
+        nodes[me] = (kind, name, [val(c, depth + 1) for c in kids])
+        return ("obj", me)
+
+    queue = [val(o, 0) for o in objs]
+    return nodes, queue
+
+
+def sval_coq(v):
+    k = v[0]
+    if k == "obj":
+        return "SObj %d" % v[1]
+    if k == "int":
+        z = v[1]
+        if abs(z) >= 2 ** 62:
+            m = abs(z)
+            return "SInt (zb %s %s)" % ("true" if z < 0 else "false", coq_Zs(m.to_bytes((m.bit_length() + 7) // 8, "big")))
+        return "SInt (%d)" % z
+    if k == "float":
+        return "SFloat " + coq_Zs(v[1])
+    if k == "bytes":
+        return "SBytes " + coq_Zs(v[1])
+    if k == "text":
+        return "SText " + coq_Zs(v[1])
+    if k == "bool":
+        return "SBool " + ("true" if v[1] else "false")
+    if k == "none":
+        return "SNone"
+    return "SDecimal " + coq_Zs(v[1])
+
+
+def heap_coq(nodes, queue):
+    rows = []
+    for i, (kind, name, kids) in nodes.items():
+        ck = {"list": "CList", "tuple": "CTuple", "set": "CSet", "frozen": "CFrozen", "dict": "CDict"}.get(kind)
+        if ck is None:
+            ck = "(%s %s)" % ("CCopy" if kind == "copy" else "CScope", coq_Zs(name))
+        rows.append("(%d, {| sn_kind := %s; sn_items := [%s] |})" % (i, ck, "; ".join(sval_coq(c) for c in kids)))
+    return "[%s]" % "; ".join(rows), "[%s]" % "; ".join(sval_coq(v) for v in queue)
+
+
 def term_size(t):
     return 1 + (sum(term_size(c) for c in t[3]) if t[0] == "cont" else 0)
 
